@@ -318,19 +318,22 @@ DEST_A = ("127.0.0.1", 7101)
 DEST_B = ("127.0.0.1", 7102)
 
 
-def gram_case(ctx, kind, op, prior, cat, item, once=False):
-    """once: the owner services the queue with serviceTxPktsOnce (one packet per pass) instead of serviceTxPkts"""
+def gram_case(ctx, kind, op, prior, cat, item, once=False, alone=False):
+    """once: the owner services the queue with serviceTxPktsOnce (one packet per pass) instead of serviceTxPkts;
+    alone: the packet whose send fails is the last one queued (nothing behind it)"""
     st, dbl, sendop, recvop = gram_stack(kind)
     name = item_name(item)
-    ctx.case((kind, op, prior, name, once), nontrivial=True)
+    ctx.case((kind, op, prior, name, once, alone), nontrivial=True)
     if once:
         ctx.hit("gram_send_once_path")
+    if alone:
+        ctx.hit("gram_send_failed_packet_is_last")
     ctx.hit("gram_%s_%s" % (op, cat))
     row = {"class": kind, "operation": op, "successful_operations_before": prior, "error": name, "category": cat}
     raised = None
     try:
         if op == "send":
-            tags = [bytes([0x61 + i]) * 3 for i in range(prior + 2)]
+            tags = [bytes([0x61 + i]) * 3 for i in range(prior + (1 if alone else 2))]
             for i, t in enumerate(tags):
                 st.transmit(mkpkt(st, t), DEST_A if i <= prior else DEST_B)
             dbl.script(sendop, [FULL] * prior + [item])
@@ -349,7 +352,7 @@ def gram_case(ctx, kind, op, prior, cat, item, once=False):
                 return dict(row, raised=repr(raised), queued=[t.hex() for t in tags],
                             sends=[(d[0].hex(), repr(d[1]), repr(r)) for (o, d, r) in dbl.log if o == sendop],
                             left_in_txPkts=[bytes(p.packed).hex() for p, _ in st.txPkts])
-            key = "%s/%s%s/%s:%s/" % (kind, sendop, "-once" if once else "", cat, name)
+            key = "%s/%s%s%s/%s:%s/" % (kind, sendop, "-once" if once else "", "-last" if alone else "", cat, name)
             if not ctx.check(injected is not None, "harness/error-not-injected", "error never raised by the double", wit):
                 return
             if cat == "loss":
@@ -466,6 +469,9 @@ def run(ctx):
                     rows += [("block" if op == "receive" else "unjudged", WOULDBLOCK)]
                 for cat, item in rows:
                     gram_case(ctx, kind, op, prior, cat, item)
+                    if op == "send":
+                        gram_case(ctx, kind, op, prior, cat, item, alone=True)
+                        gram_case(ctx, kind, op, prior, cat, item, once=True, alone=True)
                     if op == "send":
                         gram_case(ctx, kind, op, prior, cat, item, once=True)
     for op in ("send", "receive"):
